@@ -223,6 +223,8 @@ func main() {
 		cmdSynCheck(os.Args[2:])
 	case "lex-check":
 		cmdLexCheck(os.Args[2:])
+	case "wire-check":
+		cmdWireCheck(os.Args[2:])
 	case "front-replay":
 		cmdFrontReplay(os.Args[2:])
 	case "portion-check":
